@@ -3,7 +3,8 @@
    Data is abstracted to "member m holds keys of partition p in its primary/backup fragment". *)
 EXTENDS Naturals, Sequences, FiniteSets, TLC, SequencesExt, FiniteSetsExt, Json
 
-CONSTANTS Members, Parts, R, MaxEvents, MaxWrites, Export
+CONSTANTS Members, Parts, R, MaxEvents, MaxWrites, Export,
+          OnlyClosestKept   \* seeded change S-C03-6: a former backup holder that still has data stays listed only if it is among the closest members
 ASSUME Members \subseteq Nat
 
 VARIABLES alive, birth, clock, view, table, pending, pdata, bdata, events, writes, reports, elog
@@ -40,7 +41,7 @@ DB(p) ==
       newB == Tail(ClosestN(p, n)) IN
   IF cur = <<>> THEN newB ELSE
   LET live == Filter(cur, LAMBDA o : o \in alive)
-      full == Filter(live, LAMBDA o : bdata[o][p])
+      full == Filter(live, LAMBDA o : bdata[o][p] /\ (~OnlyClosestKept \/ o \in SeqSet(ClosestN(p, n))))
       RECURSIVE Add(_, _)
       Add(acc, rest) == IF rest = <<>> THEN acc ELSE Add(Append(Without(acc, Head(rest)), Head(rest)), Tail(rest))
   IN Add(full, newB)
@@ -135,6 +136,15 @@ ValidTable ==
           /\ Cardinality(cur) = want /\ t.owners[Len(t.owners)] \notin cur
      /\ \A i \in 1..Len(t.owners) - 1 : pdata[t.owners[i]][p]          \* previous owners still hold data
      /\ \A i \in 1..Len(t.backups) - want : bdata[t.backups[i]][p]    \* extra backup owners still hold data
+\* the table at a push-only fixpoint - another round of compute, push and reports would change no member's table, while data
+\* may still wait to be moved: the coordinator's table (with the reporters it prepends) is the table everybody else holds
+Patched(t) == [p \in Parts |->
+                 [owners  |-> SetToSortSeq({m \in alive : pdata[m][p]} \ SeqSet(t[p].owners), <) \o t[p].owners,
+                  backups |-> SetToSortSeq({m \in alive : bdata[m][p]} \ SeqSet(t[p].backups), <) \o t[p].backups]]
+PushFixpoint == /\ pending = {} /\ reports = {}
+                /\ \A m \in alive \ {Coord} : view[m] = Fix
+                /\ view[Coord] = Patched(Fix)
+PushFixpointAgreement == PushFixpoint => Patched(Fix) = Fix
 \* every distinct state exports the membership/write events that led to it (the Go driver replays them)
 ExportInv == Export => PrintT("BEH " \o ToJson(elog))
 \* written data is never orphaned: some listed live member holds it (R=1: may be lost with its only holder)
